@@ -223,3 +223,50 @@ def _c04_deep_recursion(rec):
     expression nested several hundred levels deep (`1 + 1 + ... + 1` with 800 terms) exhausts the default recursion limit."""
     d = rec.get("detail") or {}
     return rec.get("kind") == "format_code_raised" and d.get("exc") == "RecursionError" and _max_expr_depth(rec.get("input")) > 150
+
+
+# ----------------------------------------------------------------------------------------- C11
+def _c11(rec, stages, feature):
+    d = rec.get("detail") or {}
+    if rec.get("kind") != "layout_stage_changed_tree" or d.get("stage") not in stages or not d.get("string_constants_only"):
+        return False
+    consts = d.get("constants") or []
+    return bool(consts) and all(c.get(feature) for c in consts)
+
+
+@classifier("layout-expandtabs-in-literal")
+def _c11_tabs(rec):
+    """format_code expands tabs on the raw text (source.expandtabs(4)): a tab inside a string/bytes/f-string literal becomes spaces."""
+    return _c11(rec, ("expandtabs",), "has_tab")
+
+
+@classifier("layout-rmspace-strips-literal")
+def _c11_rmspace(rec):
+    """rmspace.format_str strips trailing blanks on every physical line, also inside multi-line (and at the end of single-line?) literals."""
+    return _c11(rec, ("rmspace.format_str",), "has_trailing_ws_line")
+
+
+@classifier("layout-blank-lines-in-literal")
+def _c11_blank(rec):
+    """fix_too_many_blank_lines applies its regexes to the raw text: runs of blank lines inside a triple-quoted literal are collapsed."""
+    return _c11(rec, ("fixes.fix_too_many_blank_lines",), "has_blank_run")
+
+
+@classifier("layout-line-wrap-reindents-literal")
+def _c11_wrap(rec):
+    """fix_line_lengths dedents a statement, hands it to black/compactify and re-indents every line of the result, including the
+    interior lines of a multi-line literal: the literal's value changes."""
+    return _c11(rec, ("fixes.fix_line_lengths", "formatting.format_with_black", "formatting.collapse_trailing_parentheses"), "multiline")
+
+
+@classifier("layout-compactify-misplaces-after-multiline-literal")
+def _c11_compactify(rec):
+    """compactify.format_code (collapse_trailing_parentheses) tracks indentation by physical lines; after a triple-quoted literal whose
+    interior lines are indented less than the statement it re-indents the following statement (a `return` moves out of its block)."""
+    d = rec.get("detail") or {}
+    if rec.get("kind") != "layout_stage_changed_tree" or d.get("stage") not in ("formatting.collapse_trailing_parentheses", "fixes.fix_line_lengths"):
+        return False
+    if d.get("string_constants_only"):
+        return False
+    src = rec.get("input") or ""
+    return re.search(r"('''|\"\"\")[^'\"]*\n[^'\"]*\n", src) is not None
